@@ -90,14 +90,7 @@ def gen(ctx, mod, cfg, num, depth, asis=False):
 def replay(ctx, cases, prefixes):
     binary = vlib.go_build(ctx, "op")
     hookbin = vlib.go_build(ctx, "hookbin")
-    inp, outp = ctx.path("op_in.jsonl"), ctx.path("op_out.jsonl")
-    vlib.write_jsonl(inp, cases)
-    r = vlib.run_bin(ctx, binary, ["replay", "-in", inp, "-out", outp, "-hookbin", hookbin], timeout=2400)
-    if r["rc"] != 0:
-        raise Infra("op replay failed: " + r["stderr"][-2000:])
-    res = vlib.read_jsonl(outp)
-    if len(res) != len(cases):
-        raise Infra("op replay: %d results for %d cases" % (len(res), len(cases)))
+    res = vlib.run_sharded(ctx, binary, cases, lambda i, o: ["replay", "-in", i, "-out", o, "-hookbin", hookbin], shards=6, timeout=2400, tag="op")
     stats = {"steps": 0, "execs": 0, "diverged": 0, "complete": 0}
     for c, rr in zip(cases, res):
         stats["steps"] += rr["steps"]
@@ -107,7 +100,7 @@ def replay(ctx, cases, prefixes):
             continue
         sig = rr["sig"]
         if any(sig.startswith(p) for p in prefixes):
-            ctx.fail(sig, rr["detail"], {"config": c["config"], "actions": [s["act"] for s in c["steps"][1:rr["bad_step"] + 1]]})
+            ctx.fail(sig, rr["detail"], {"config": c["config"], "actions": [s["act"] for s in c["steps"][1:rr.get("bad_step", 0) + 1]]})
         else:
             stats["diverged"] += 1
             ctx.notes.append("DIVERGENCE %s (config %s, step %s): %s" % (sig, c["config"], rr.get("bad_step"), rr["detail"][:300]))
